@@ -84,11 +84,13 @@ RUNS = (
     + [dict(kind="confroll", table="T1"), dict(kind="confroll", table="T2")]
     # confidence assignment with protein-level results (one more level file: the picked-protein table)
     + [dict(kind="confprot")]
+    # two collections without prefixes combined into one set of result files (what --aggregate does)
+    + [dict(kind="conf2", chunk=BIG)]
 )
 
 
 # quick tier: a representative subset of the configurations (same kinds, both tables, both chunkings, one Parquet)
-QUICK_RUNS = [0, 2, 5, 7, 8, 10, 11, 12, 13, 14, 15]
+QUICK_RUNS = [0, 2, 5, 7, 8, 10, 11, 12, 13, 14, 15, 16]
 
 
 class Env:
@@ -136,6 +138,11 @@ class Env:
                 ds = make_dataset(df, self.fixed / f"{run['table']}{ext}", features=["f_key", "f2"], spectrum=self.spec, write=False)
                 fn = lambda: assign_confidence([ds], max_workers=1, scores=[df["f_key"].values.astype(float)], descs=[True],  # noqa: E731
                                                dest_dir=self.out, prefixes=[run["prefix"]], decoys=True)
+            elif run["kind"] == "conf2":
+                dss = [make_dataset(self.tabs[t], self.fixed / f"{t}.pin", features=["f_key", "f2"], spectrum=self.spec, write=False)
+                       for t in ("T1", "T2")]
+                fn = lambda: assign_confidence(dss, max_workers=1, scores=[self.tabs[t]["f_key"].values.astype(float) for t in ("T1", "T2")],  # noqa: E731
+                                               descs=[True, True], dest_dir=self.out, prefixes=[None, None], decoys=True)
             elif run["kind"] == "confprot":
                 import mokapot
                 from checks import c08_determinism as c8
